@@ -64,6 +64,9 @@ CHECKS = {
     "C18": ("fault-schedule enumeration + property testing on the C13 scheduler: writers are suspended forever at every hooked step (exhaustively for small programs, randomly beyond) and a solo caller must finish alone within a step budget without lock operations",
             "Every suspension point of one writer doing two updates and of two concurrent writers is enumerated for snapshot / sequence / try_update callers (and observe_file_time vs get_base_time_unlocked on the process-wide cell), plus random programs, suspension points and stale reads; the solo caller must complete while all peers stay frozen, take no lock (readers) or exactly one try_lock (try_update), need exactly four loads when nothing completes during its read, and try_update must return false while a suspended writer holds the lock.",
             "Liveness as bounded termination under frozen peers; hook: vouched_time/verif-hooks.", "DESIGN.md §5 C18"),
+    "C19": ("stateful property-based testing against the real file system, one fresh process per generated call history (process-global module state), invariant over the history checked after every call",
+            "Thousands (hundreds of thousands in thorough) of generated call sequences over files on two writable devices (trusted or not), old and fresh change-times, read-only foreign devices, explicit 'now' values on both sides of the refresh threshold; after every call the base time must not have decreased and any change must equal the change-time (read back with stat) of a file the call could legitimately have observed on a trusted device; untrusted observations report nothing; every returned pair passes VouchedTime::check.",
+            "Two writable devices only (ext4 under /verif, /dev/shm); never predicts the refresh policy; violations are time-dependent and reported as first observed when they do not reproduce.", "DESIGN.md §5 C19"),
     "C20": (_IOVEC + " with two models (one per side of a clone/take) and the live-chunk registry",
             "Generated prefix, clone()/take(), then generated suffixes interleaved over both sides (optionally dropping one side first); each side is compared with its own model after every operation and all exposed slices are address-checked with quarantine on, so interference through shared slices, anchors, arena cache or backrefs shows up as a content, size or liveness mismatch.",
             "Clone only with no placeholder pending (the property's own precondition). Hook: owning_iovec/verif-hooks.", "DESIGN.md §5 C20"),
@@ -105,7 +108,7 @@ def main():
         ],
         "checks": checks,
         "not_applicable": [
-            {"property_id": pid, "reason": "check not registered yet (machinery under construction; see DESIGN.md for the planned check)"}
+            {"property_id": pid, "reason": "no check registered"}
             for pid in ALL if pid not in CHECKS
         ],
         "notes": "Exit codes: 0 held, 1 violation (VIOLATION line), 2 inconclusive (build failure / watchdog). VERIF_SEED selects the PRNG seed (default 1). Known findings: /verif/KNOWN_FINDINGS.txt.",
